@@ -20,7 +20,7 @@ Stmts == {"x = 1", "  call f(a)", "s = 'a!b'", "s = \"c&d\"", "s = 'it''s'", "s 
           "s = 'a ! b' // 'c'", "t = 'x&' // \"!\""}
 Blanks == {"", "   "}
 Comments == {"! note", "  ! 'quote", "!", "! & more", "!x y$"}
-Sentinels == {"!$omp parallel", "  !$acc loop", "!dir$ ivdep", "!$omp end parallel ! c", "!DIR$ IVDEP", "!Gcc$ unroll 4"}
+Sentinels == {"!$ 3 + &", "!$omp parallel", "  !$acc loop", "!dir$ ivdep", "!$omp end parallel ! c", "!DIR$ IVDEP", "!Gcc$ unroll 4"}
 Starts == {"s = 'a' &", "x = 1 + &", "x = 1 + & ! why", "call f(a, &", "s = 'abc&", "z = 3 &", "s = 'a!b&", "s = \"e!f&", "s = \"e!f\" // \"x&", "s = \"p // q &\" // &",
            "s = 'u ! v' // &"}
 Conts == {"  // 'b' &", "  // 'c'", "  2", "& 2", "  & 2 + &", "    b)", "  &def'", "&   4 ! t", "  &c!d'", "  &g!h\"", "  &y\"", "  'w'"}
@@ -29,7 +29,7 @@ Dirs == {"#if 1", "#ifdef X", "#else", "#endif", "#define X 1", "#  define Y \\"
 
 Lines == IF Profile = "cont"
          THEN {"s = 'abc&", "#ifdef X", "#endif", "! note", "  &def'", "x = 1 + &", "  2", "s = \"e!f&", "  &g!h\"",
-               "s = 'a' &", "#else ! isn't", "  // 'b' &", "  // 'c'", "#ifdef X ! \"q"}
+               "s = 'a' &", "#else ! isn't", "  // 'b' &", "  // 'c'", "#ifdef X ! \"q", "!$ 3 + &"}
          ELSE IF Profile = "small"
          THEN {"x = 1", "s = 'a!b'", "s = \"c&d\"", "", "! note", "!$omp parallel", "!DIR$ IVDEP", "x = 1 + &", "  2", "& 2", "s = 'abc&",
                "  &def'", "#define X 1", "#  define Y \\", "print *, 'x' ! trailing", "  ! 'quote", "x = 1 + & ! why", "s = 'it''s'",
